@@ -17,6 +17,7 @@ Wire domain notes
   sub-decoder exactly `header.message_length` bytes and calls assert_complete() on the result; the
   decode-reading sets therefore take len(payload) == sub-header.message_length.
 """
+from pyvc.values import unmodelled as _unmodelled  # noqa: E402
 from pyvc.sym import And, Or, Not, Implies, ite
 from pyvc.vc import oset
 from contracts.codec import AT5, REJECT, at5_header, at5_ext_subheader, roundtrip_plain, only_rejects
@@ -996,7 +997,7 @@ class _Stub:
         from pyvc.values import Builtin
         if name in self._methods:
             return Builtin("stub." + name, self._methods[name])
-        raise it.exc("AttributeError", name)
+        raise _unmodelled(self, name)
 
 
 def _first_bytes(h, out, n):
